@@ -1535,10 +1535,18 @@ class ConeBeamGeometry(DivergentBeamGeometry, AxisOrientedGeometry):
         apart = part.byaxis[0]
         dpart = part.byaxis[1:]
 
+        # The constructor expects a 2-tuple of curvature radii
+        if isinstance(self.detector, SphericalDetector):
+            det_curvature_radius = (self.detector.radius, self.detector.radius)
+        elif isinstance(self.detector, CylindricalDetector):
+            det_curvature_radius = (self.detector.radius, None)
+        else:
+            det_curvature_radius = None
+
         return ConeBeamGeometry(apart, dpart,
                                 src_radius=self.src_radius,
                                 det_radius=self.det_radius,
-                                det_curvature_radius=self.det_curvature_radius,
+                                det_curvature_radius=det_curvature_radius,
                                 pitch=self.pitch,
                                 axis=self.axis,
                                 offset_along_axis=self.offset_along_axis,
